@@ -2,8 +2,8 @@ import HailVerif.Model.ExprIR
 /-!
 # Agreement lemmas for the full expression IR, aggregation nodes included (C35)
 
-* `eval_agree`: the value only depends on the bindings of the names that occur in the term — in the value scope and in every
-  element environment of the aggregation scope (coarse: every occurring name, bound or free);
+* `eval_agree` (coincidence): the value only depends on the bindings of the free variables `fv` in the value scope and of the
+  free aggregation variables `fva` in every element environment of the aggregation scope;
 * `eval_A_irrel`: a term without ambient aggregation nodes (`usesAgg = false`) does not depend on the aggregation scope.
 -/
 namespace HailVerif.ExprIR
@@ -44,8 +44,7 @@ theorem Rel2.filter {R : Env → Env → Prop} (p q : Env → Bool) (h : ∀ a b
     (r : Rel2 R A B) : Rel2 R (A.filter p) (B.filter q) := by
   induction r with
   | nil => exact .nil
-  | cons hab _ ih =>
-    rename_i a b as bs
+  | @cons a b as bs hab _ ih =>
     simp only [List.filter_cons]
     rw [h a b hab]
     split
@@ -74,116 +73,149 @@ abbrev AgreeA (L : List Name) (A A' : List Env) : Prop := Rel2 (Agree L) A A'
 theorem AgreeA.mono {L L' : List Name} {A A' : List Env} (h : AgreeA L A A') (hs : ∀ z ∈ L', z ∈ L) : AgreeA L' A A' :=
   Rel2.mono (fun _ _ hab => hab.mono hs) h
 
-/-- the value only depends on the bindings of the names occurring in the term -/
-theorem eval_agree (t : IR) : ∀ (ρ ρ' : Env) (A A' : List Env), Agree (names t) ρ ρ' → AgreeA (names t) A A' →
+theorem mem_remove {x y : Name} {l : List Name} : y ∈ remove x l ↔ y ∈ l ∧ y ≠ x := by
+  simp [remove]
+
+theorem Agree.cons_remove {L : List Name} {ρ ρ' : Env} {y : Name} (h : Agree (remove y L) ρ ρ') (w : Val) :
+    Agree L ((y, w) :: ρ) ((y, w) :: ρ') := by
+  intro z hz
+  simp only [lookup_cons']
+  split
+  · rfl
+  · rename_i hne; exact h z (mem_remove.2 ⟨hz, fun e => hne e.symm⟩)
+
+theorem Rel2.map_right {R : Env → Env → Prop} (f : Env → Env) (h : ∀ a, R a (f a)) (A : List Env) : Rel2 R A (A.map f) := by
+  induction A with
+  | nil => exact .nil
+  | cons a r ih => exact .cons (h a) ih
+
+/-- **Coincidence**: the value only depends on the value-scope bindings of the free variables (`fv`) and, in every element
+environment of the aggregation scope, on the bindings of the free aggregation variables (`fva`) -/
+theorem eval_agree (t : IR) : ∀ (ρ ρ' : Env) (A A' : List Env), Agree (fv t) ρ ρ' → AgreeA (fva t) A A' →
     eval ρ A t = eval ρ' A' t := by
   induction t
-  case ref x => intro ρ ρ' A A' h _; simpa [eval] using h x (by simp [names])
+  case ref x => intro ρ ρ' A A' h _; simpa [eval] using h x (by simp [fv])
   case i32 | i64 | f32 | f64 | str | bool | na | anil | snil | tnil => intros; simp [eval]
   case cast | ascribe | isNA | un | arrayLen | toArray | toStream | getField | getTupleElement | toSet | toDict =>
     rename_i ih
     intro ρ ρ' A A' h hA
     simp only [eval]
-    rw [ih ρ ρ' A A' (by simpa [names] using h) (by simpa [names] using hA)]
+    rw [ih ρ ρ' A A' (by simpa [fv] using h) (by simpa [fva] using hA)]
   case bin | cmp | acons | arrayRef | scons | insertField | tcons | dictGet =>
     rename_i iha ihb
     intro ρ ρ' A A' h hA
-    simp only [names] at h hA
+    simp only [fv] at h
+    simp only [fva] at hA
     simp only [eval]
     have e1 := iha ρ ρ' A A' (h.mono (by simp +contextual)) (hA.mono (by simp +contextual))
     have e2 := ihb ρ ρ' A A' (h.mono (by simp +contextual)) (hA.mono (by simp +contextual))
     simp only [e1, e2]
   case ite iha ihb ihc =>
     intro ρ ρ' A A' h hA
-    simp only [names] at h hA
+    simp only [fv] at h
+    simp only [fva] at hA
     simp only [eval]
     rw [iha ρ ρ' A A' (h.mono (by simp +contextual)) (hA.mono (by simp +contextual)),
       ihb ρ ρ' A A' (h.mono (by simp +contextual)) (hA.mono (by simp +contextual)),
       ihc ρ ρ' A A' (h.mono (by simp +contextual)) (hA.mono (by simp +contextual))]
   case let_ x v b ihv ihb =>
     intro ρ ρ' A A' h hA
-    simp only [names] at h hA
+    simp only [fv] at h
+    simp only [fva] at hA
     simp only [eval]
     rw [ihv ρ ρ' A A' (h.mono (by simp +contextual)) (hA.mono (by simp +contextual))]
-    exact ihb _ _ A A' ((h.mono (by simp +contextual)).cons _ _) (hA.mono (by simp +contextual))
+    exact ihb _ _ A A' ((h.mono (by simp +contextual)).cons_remove _) (hA.mono (by simp +contextual))
   case streamMap x a b iha ihb =>
     intro ρ ρ' A A' h hA
-    simp only [names] at h hA
+    simp only [fv] at h
+    simp only [fva] at hA
     simp only [eval]
     rw [iha ρ ρ' A A' (h.mono (by simp +contextual)) (hA.mono (by simp +contextual))]
     have hb : ∀ w, eval ((x, w) :: ρ) A b = eval ((x, w) :: ρ') A' b := fun w =>
-      ihb _ _ A A' ((h.mono (by simp +contextual)).cons _ _) (hA.mono (by simp +contextual))
+      ihb _ _ A A' ((h.mono (by simp +contextual)).cons_remove _) (hA.mono (by simp +contextual))
     simp only [hb]
   case streamFilter x a b iha ihb =>
     intro ρ ρ' A A' h hA
-    simp only [names] at h hA
+    simp only [fv] at h
+    simp only [fva] at hA
     simp only [eval]
     rw [iha ρ ρ' A A' (h.mono (by simp +contextual)) (hA.mono (by simp +contextual))]
     have hb : ∀ w, eval ((x, w) :: ρ) A b = eval ((x, w) :: ρ') A' b := fun w =>
-      ihb _ _ A A' ((h.mono (by simp +contextual)).cons _ _) (hA.mono (by simp +contextual))
+      ihb _ _ A A' ((h.mono (by simp +contextual)).cons_remove _) (hA.mono (by simp +contextual))
     simp only [hb]
   case streamFold acc v a z b iha ihz ihb =>
     intro ρ ρ' A A' h hA
-    simp only [names] at h hA
+    simp only [fv] at h
+    simp only [fva] at hA
     simp only [eval]
     rw [iha ρ ρ' A A' (h.mono (by simp +contextual)) (hA.mono (by simp +contextual)),
       ihz ρ ρ' A A' (h.mono (by simp +contextual)) (hA.mono (by simp +contextual))]
     have hb : ∀ s w, eval ((v, w) :: (acc, s) :: ρ) A b = eval ((v, w) :: (acc, s) :: ρ') A' b := fun s w =>
-      ihb _ _ A A' (((h.mono (by simp +contextual)).cons _ _).cons _ _) (hA.mono (by simp +contextual))
+      ihb _ _ A A' (((h.mono (by simp +contextual)).cons_remove _).cons_remove _) (hA.mono (by simp +contextual))
     simp only [hb]
   case streamScan acc v a z b iha ihz ihb =>
     intro ρ ρ' A A' h hA
-    simp only [names] at h hA
+    simp only [fv] at h
+    simp only [fva] at hA
     simp only [eval]
     rw [iha ρ ρ' A A' (h.mono (by simp +contextual)) (hA.mono (by simp +contextual)),
       ihz ρ ρ' A A' (h.mono (by simp +contextual)) (hA.mono (by simp +contextual))]
     have hb : ∀ s w, eval ((v, w) :: (acc, s) :: ρ) A b = eval ((v, w) :: (acc, s) :: ρ') A' b := fun s w =>
-      ihb _ _ A A' (((h.mono (by simp +contextual)).cons _ _).cons _ _) (hA.mono (by simp +contextual))
+      ihb _ _ A A' (((h.mono (by simp +contextual)).cons_remove _).cons_remove _) (hA.mono (by simp +contextual))
     simp only [hb]
   case streamAgg x a q iha ihq =>
     intro ρ ρ' A A' h hA
-    simp only [names] at h hA
+    simp only [fv] at h
+    simp only [fva] at hA
     simp only [eval]
-    rw [iha ρ ρ' A A' (h.mono (by simp +contextual)) (hA.mono (by simp +contextual))]
+    rw [iha ρ ρ' A A' (h.mono (by simp +contextual)) hA]
     have hq : ∀ vs : List Val, eval ρ (vs.map fun w => (x, w) :: ρ) q = eval ρ' (vs.map fun w => (x, w) :: ρ') q := by
       intro vs
       apply ihq _ _ _ _ (h.mono (by simp +contextual))
-      exact Rel2.of_map _ _ (fun w => (h.mono (by simp +contextual)).cons _ _) vs
+      exact Rel2.of_map _ _ (fun w => (h.mono (by simp +contextual)).cons_remove _) vs
     simp only [hq]
   case aggLet x v b ihv ihb =>
     intro ρ ρ' A A' h hA
-    simp only [names] at h hA
+    simp only [fv] at h
+    simp only [fva] at hA
     simp only [eval]
-    apply ihb _ _ _ _ (h.mono (by simp +contextual))
+    apply ihb _ _ _ _ h
     refine Rel2.map _ _ ?_ hA
     intro σ σ' hσ
     have : eval σ [] v = eval σ' [] v := ihv σ σ' [] [] (hσ.mono (by simp +contextual)) .nil
     rw [this]
-    exact (hσ.mono (by simp +contextual)).cons _ _
+    exact (hσ.mono (by simp +contextual)).cons_remove _
   case aggFilter c b ihc ihb =>
     intro ρ ρ' A A' h hA
-    simp only [names] at h hA
+    simp only [fv] at h
+    simp only [fva] at hA
     simp only [eval]
-    apply ihb _ _ _ _ (h.mono (by simp +contextual))
+    apply ihb _ _ _ _ h
     refine (Rel2.filter _ _ ?_ hA).mono (fun _ _ hab => hab.mono (by simp +contextual))
     intro σ σ' hσ
     rw [ihc σ σ' [] [] (hσ.mono (by simp +contextual)) .nil]
   case agg op a iha =>
     intro ρ ρ' A A' _ hA
-    simp only [names] at hA
+    simp only [fva] at hA
     have : A.map (fun σ => eval σ [] a) = A'.map (fun σ => eval σ [] a) :=
       Rel2.map_eq _ _ (fun σ σ' hσ => iha σ σ' [] [] hσ .nil) hA
     cases op <;> simp only [eval, this]
 
-/-- the same term in two value scopes that agree on every name of the term, same aggregation scope -/
-theorem eval_agree_env (t : IR) (ρ ρ' : Env) (A : List Env) (h : ∀ z ∈ names t, lookup ρ z = lookup ρ' z) :
+/-- the same term in two value scopes that agree on its free variables, same aggregation scope -/
+theorem eval_agree_env (t : IR) (ρ ρ' : Env) (A : List Env) (h : ∀ z ∈ fv t, lookup ρ z = lookup ρ' z) :
     eval ρ A t = eval ρ' A t :=
   eval_agree t ρ ρ' A A h (Rel2.refl (fun _ _ _ => rfl) A)
 
 /-- a term without ambient aggregation nodes does not depend on the aggregation scope -/
 theorem eval_A_irrel (t : IR) : ∀ (ρ : Env) (A A' : List Env), usesAgg t = false → eval ρ A t = eval ρ A' t := by
   induction t
-  case agg | aggLet | aggFilter => intro _ _ _ h; simp [usesAgg] at h
+  case agg | aggFilter => intro _ _ _ h; simp [usesAgg] at h
+  case aggLet x v b _ ihb =>
+    intro ρ A A' h
+    simp only [usesAgg] at h
+    simp only [eval]
+    -- the body does not look at its aggregation scope either
+    exact ihb ρ _ _ h
   case ref | i32 | i64 | f32 | f64 | str | bool | na | anil | snil | tnil => intros; simp [eval]
   case cast | ascribe | isNA | un | arrayLen | toArray | toStream | getField | getTupleElement | toSet | toDict =>
     rename_i ih
